@@ -7,17 +7,24 @@ SPEC = {
     "technique": ("explicit-state BFS to fixpoint over four-way-handshake histories on the real WPA2Decrypter with a lock-step validity "
                   "model, plus exhaustive enumeration of frames encrypted by an independent implementation (own RC4/CRC-32/TKIP "
                   "mixing/Michael, OpenSSL CCM, own PBKDF2/PRF on HMAC) and of hostile protected-frame bodies"),
-    "rule": ("(1) handshakes, jobs 32-47: per configuration (CCMP | TKIP) x (passphrase+SSID only | +BSSID registered) x (EAPOL in Data | QoS Data "
-             "frames) x (station/BSSID address order and ANonce/SNonce order, both ways) a BFS TO FIXPOINT over the real WPA2Decrypter (copied "
-             "per state, PBKDF2 done once) x model; events = messages 1-4 of station A, their retransmitted copies (replay counter bumped, MIC "
-             "recomputed), messages 1-4 of station B (thorough: B's retransmissions too, a foreign AP's beacon, a beacon without SSID), the "
-             "AP's beacon, a protected data frame of A and of B; the model calls a station's history valid-complete when its messages came in "
-             "non-decreasing number order, each at least once, and expects keys when message 4 completes such a history while the AP is known; "
-             "after EVERY transition five probe frames encrypted by the reference side under the reference PTKs are presented (A and B, to-DS "
-             "and from-DS, one under a PTK from a wrong passphrase): a frame reported decrypted must equal its plaintext and be unmarked, the "
-             "foreign-key frame must never decrypt, an unprotected event frame must not be reported decrypted, and wherever the model expects "
-             "keys: both directions decrypt, get_keys() holds the station's pair with PTK = reference PRF-512 (KCK|KEK|TK[|MIC keys]) and the "
-             "right cipher. (2) frames, jobs 0-31: cipher in {WEP-40, WEP-104, TKIP, CCMP} x ToDS/FromDS (4 forms, 4-address with addr4) x QoS "
+    "rule": ("(1) handshakes, jobs 32..: per configuration (CCMP | TKIP) x (passphrase+SSID only | +BSSID registered) x (EAPOL in Data | QoS Data "
+             "frames) x (station/BSSID address order and ANonce/SNonce order, both ways) [thorough: x 2 alphabet shapes] a BFS TO FIXPOINT over the "
+             "real WPA2Decrypter (copied per state, PBKDF2 done once) x model; events = messages 1-4 of station A, their retransmitted copies "
+             "(replay counter bumped, MIC recomputed), messages 1-4 of a SECOND handshake generation of A (fresh ANonce/SNonce, hence another "
+             "PTK: re-association / rekey), messages 1-4 of station B, the AP's beacon, a protected data frame of A under PTK1, under PTK2, of B "
+             "(thorough shape 1: + B's retransmissions, a foreign AP's beacon, a beacon without SSID; shape 2: + a second generation and its "
+             "data frame for B). Model per station: message 1 starts a run when there is none, the current one is complete or it belongs to the "
+             "other generation (an unfinished handshake may be abandoned); inside a run numbers are non-decreasing without gaps, duplicates "
+             "allowed; anything else, or a message >= 2 of the other generation, spoils the run; message 4 completing an unspoilt run while the "
+             "AP is known makes THAT generation's PTK the required one (the most recently completed valid handshake); when a run is spoilt and a "
+             "generation other than the required one is involved the requirement becomes undetermined until a later clean completion. After "
+             "EVERY transition the probe frames (each station x generation x ToDS/FromDS under the reference PTK, plus one under a PTK from a "
+             "wrong passphrase; outcomes computed once per distinct canonical implementation state) are judged: a frame reported decrypted "
+             "must equal its plaintext and be unmarked, one not decrypted must stay marked, the foreign-key frame never decrypts, an "
+             "unprotected event frame is never reported decrypted, and where a generation is required: its frames decrypt in both "
+             "directions, get_keys() holds the station's pair with PTK = that generation's reference PRF-512 (KCK|KEK|TK[|MIC keys]) and the "
+             "right cipher; frames under the other generation's PTK are not judged. "
+             "(2) frames, jobs 0-31: cipher in {WEP-40, WEP-104, TKIP, CCMP} x ToDS/FromDS (4 forms, 4-address with addr4) x QoS "
              "(none, TID 0/5/15) x 2 address sets x EVERY plaintext length 0..48 (thorough 0..100, 255..257, 1500, 2304) x 3 (thorough 5) "
              "key/IV/PN/sequence/payload patterns: built as bytes in an exact-size heap buffer (freed before decrypt), Dot11::from_bytes, "
              "WEPDecrypter / WPA2Decrypter::decrypt with the key registered through add_password / add_decryption_keys; oracle: true, "
@@ -39,7 +46,8 @@ SPEC = {
              "the TKIP ICV only; evidence records tkip_frame_with_wrong_michael_mic_accepted), what a failed decryption leaves in the frame "
              "body, libtins exceptions for decrypted payloads shorter than a SNAP header. For the ToDS=FromDS forms 802.11 names no "
              "BSSID/AP, so the key is registered under every address (pair) a caller could mean."),
-    "assumptions": ["handshake validity = per station non-decreasing message numbers, each at least once, duplicates allowed (DESIGN appendix C)",
+    "assumptions": ["handshake validity = per station and handshake run non-decreasing message numbers, each at least once, duplicates allowed (DESIGN appendix C); a run starts at a message 1 and may be abandoned for a new one",
+                    "the keys in force are those of the most recently completed valid handshake; nothing positive is required while messages of two generations are mixed invalidly",
                     "keys are expected only when the AP is known (beacon seen or BSSID registered) at the moment message 4 completes the handshake",
                     "matching key for ToDS / FromDS frames = the (station, BSSID) pair; retry, power-management, more-data and order bits are 0",
                     "plaintext payloads start with an LLC/SNAP header whose ethertype libtins has no parser for, or carry a well-formed IPv4/UDP datagram",
